@@ -407,6 +407,7 @@ class Hist05:
             self.do(('scrub_part', rng.choice([30, 50, 70])))
         elif c < 0.4:
             self.do(('sync', '-B', str(rng.randint(1, 2))))
+        victims = []
         for rd in range(rng.randint(1, 2)):
             try:
                 st = a.content()
@@ -431,17 +432,21 @@ class Hist05:
                 self.do(self.gen_sync())
             if not os.path.exists(a.content_files[0]):
                 return
-            if rng.random() < 0.7:
-                for d, f in victims:
-                    if rng.random() < 0.8:
-                        self.do(('damage', 'rm', d, sub2rel(f['sub'])))
-            else:
-                for op in self.gen_damage():
-                    if op[1] != 'parity':
-                        self.do(op)
-            if a.np > 1 and rng.random() < 0.25:
-                self.do(('damage', 'parity', rng.randrange(a.np), rng.choice(['garbage', 'delete', 'truncate']), rng.getrandbits(32)))
-            self.do(rng.choice([('fix',), ('fix',), ('fix', '-m'), ('fix', '-d', rng.choice(a.disks))]))
+        # every damage comes after the last sync (the version store learns the on-disk state at every sync), then one fix and,
+        # often, a second one right after it (what the first left as .unrecoverable is taken back by the second)
+        if rng.random() < 0.7:
+            for d, f in victims:
+                if rng.random() < 0.8:
+                    self.do(('damage', 'rm', d, sub2rel(f['sub'])))
+        else:
+            for op in self.gen_damage():
+                if op[1] != 'parity':
+                    self.do(op)
+        if a.np > 1 and rng.random() < 0.25:
+            self.do(('damage', 'parity', rng.randrange(a.np), rng.choice(['garbage', 'delete', 'truncate']), rng.getrandbits(32)))
+        self.do(rng.choice([('fix',), ('fix',), ('fix', '-m'), ('fix', '-d', rng.choice(a.disks))]))
+        if rng.random() < 0.5:
+            self.do(('fix',))
 
     # ---- fragmented files with silent damage in several fragments, scrub, fix -e / -b / plain -----------------------------------
     def run_fragment(self):
@@ -721,8 +726,6 @@ class Hist05:
             # are about); where the real run violates the property in an unknown way the violation itself is the report
             self.stats['model'] += 1
             dd = self.mb.compare(pred, r, 'fix', tuple(opts))
-            if getattr(self.mb, 'real_aborted', None):
-                chk.notes.append('fix gave up in the middle of the run (%s): not compared with the model' % self.mb.real_aborted[:160])
             if dd and (property_ok or not any(not v[2] for v in chk.violations)):
                 chk.violation('drift_fix', 'MODEL-DRIFT: the fix model disagrees with the real `fix %s` (%s): %s' % (' '.join(opts), 'which satisfies the property here' if property_ok else 'a known finding shows here', dd[0]),
                               dict(replay, diffs=dd[:6]), no_input=True)
